@@ -253,7 +253,7 @@ func render(c *Case, pre, pa, pb *part, crashA, crashB bool) lib.Result {
 	}
 	if rejected {
 		tags["configuration-rejected"] = true
-		x, lensB = nil, nil
+		x, lensB, st0 = nil, nil, nil // nothing is delivered to a refused configuration: a vacuous case, tagged
 		pa, pb = &part{Blocks: [][]rec{{}}}, &part{}
 		crashA, crashB = false, false
 	}
